@@ -10,6 +10,7 @@ import (
 	"go/types"
 	"os"
 	"path/filepath"
+	"regexp"
 	"sort"
 	"strings"
 	"sync"
@@ -329,7 +330,11 @@ func cmdCheck(args []string) int {
 		}
 		// failed: known finding?
 		handled := false
-		if ks, ok := kfBy[o.Name]; ok {
+		kname := o.Name
+		if _, ok := kfBy[kname]; !ok {
+			kname = stripOrdinal(o.Name)
+		}
+		if ks, ok := kfBy[kname]; ok {
 			for _, k := range ks {
 				if k.Witness == "" {
 					knownLines = append(knownLines, fmt.Sprintf("KNOWN-FINDING: property=%s %s [%s]", *prop, k.What, o.Name))
@@ -354,7 +359,7 @@ func cmdCheck(args []string) int {
 		}
 		reports = append(reports, r)
 		if handled {
-			if len(kfBy[o.Name]) > 0 && kfBy[o.Name][0].Witness == "" {
+			if len(kfBy[kname]) > 0 && kfBy[kname][0].Witness == "" {
 				nObl-- // call-site findings are listed, not counted
 			}
 			continue
@@ -456,8 +461,16 @@ func cmdCheck(args []string) int {
 	data, _ := json.MarshalIndent(ev, "", " ")
 	os.WriteFile(*out, data, 0o644)
 
+	seenKL := map[string]bool{}
 	for _, l := range knownLines {
-		fmt.Println(l)
+		b := l
+		if k := strings.Index(b, " ["); k >= 0 {
+			b = b[:k]
+		}
+		if !seenKL[b] {
+			seenKL[b] = true
+			fmt.Println(l)
+		}
 	}
 	if *verbose {
 		for _, r := range reports {
@@ -780,3 +793,8 @@ func onlyInlined(fn *ssa.Function) bool {
 	}
 	return found
 }
+
+var ordinalRe = regexp.MustCompile(`#[0-9]+$`)
+
+// stripOrdinal: "f#kind:x#3" -> "f#kind:x" (repeated instances of one obligation, e.g. through inlining)
+func stripOrdinal(s string) string { return ordinalRe.ReplaceAllString(s, "") }
